@@ -92,6 +92,15 @@ int main() {
     if (cs.size() != 2) { printf("MultiSeparation + Distribution generated %zu constraints\n", cs.size()); bad++; }
     else { expect("multi-separation", cs[0], a1.variable, a2.variable, 30.0, false, &ms); expect("distribution", cs[1], a1.variable, a2.variable, 40.0, true, &dc); }
     cs.clear();
+    { // a distribution whose pairs are not in chain order: two pieces first, then the pair that joins them -- every pair gets its equality
+      AlignmentConstraint g0(dim, 0.0), g1(dim, 100.0), g2(dim, 200.0), g3(dim, 300.0); vpsc::Variables gv;
+      g0.generateVariables(dim, gv); g1.generateVariables(dim, gv); g2.generateVariables(dim, gv); g3.generateVariables(dim, gv);
+      DistributionConstraint dj(dim); dj.setSeparation(100.0); dj.addAlignmentPair(&g0, &g1); dj.addAlignmentPair(&g2, &g3); dj.addAlignmentPair(&g1, &g2);
+      vpsc::Constraints dcs; dj.generateSeparationConstraints(dim, gv, dcs, bbs);
+      if (dcs.size() != 3) { printf("distribution with pairs (g0,g1),(g2,g3),(g1,g2) generated %zu equalities (expected 3)\n", dcs.size()); bad++; }
+      else { expect("distribution pair 1", dcs[0], g0.variable, g1.variable, 100.0, true, &dj); expect("distribution pair 2", dcs[1], g2.variable, g3.variable, 100.0, true, &dj);
+             expect("distribution joining pair", dcs[2], g1.variable, g2.variable, 100.0, true, &dj); }
+    }
     MultiSeparationConstraint mse(dim, 60.0, true); mse.addAlignmentPair(&a1, &a2);
     mse.generateSeparationConstraints(dim, vs, cs, bbs);
     if (cs.size() != 1) { printf("exact MultiSeparation generated %zu constraints\n", cs.size()); bad++; }
@@ -579,6 +588,36 @@ def jobs(tier):
                   flags=["--sat-solver", "cadical"], backend="sat:cadical",
                   bound="compound constraints with 0 to 3 sub-constraints (loops unwound 6 times with unwinding assertions), every earlier cursor position and flag pattern",
                   domain="every such constraint state", expect=[r'h_cursor\.assertion']))
+    # ---------------- DistributionConstraint::generateSeparationConstraints, WHOLE function on short pair lists (bounded): every alignment pair -- whatever
+    #                  its position in the list and whatever pairs came before -- yields its own equality; complements distribution_body/_shell, which need the
+    #                  loop body to be self-contained
+    dg = slice_func(CC, r'^void DistributionConstraint::generateSeparationConstraints\(\s*const vpsc::Dim dim,', "DistributionConstraint::generateSeparationConstraints")
+    nth = len(re.findall(r'throw InvalidConstraint\(this\);', strip_comments(dg.text)))
+    dg_text = subst(dg, [(r'throw InvalidConstraint\(this\);', '{ verif_thrown = 1; return; }', nth)]) if nth else dg.text
+    dg_cxx = ("#include <set>\n" + tu({}, dg_text, "") +
+              "// objects of classes that hold (bounded-stub) vectors are carved out of raw memory and their vector members set by hand: goto-cc cannot generate the implicit\n"
+              "// constructor of a class whose member is a class-template instance with user constructors\n"
+              'extern "C" void *malloc(size_t);\n'
+              "static cola::DistributionConstraint *verif_dcp; static cola::AlignmentConstraint *verif_al; static cola::AlignmentPair verif_pair[3]; static cola::SubConstraintInfo *verif_infop[3];\n"
+              "#define verif_dc (*verif_dcp)\n"
+              "static vpsc::Constraints verif_gcs; static vpsc::Variables verif_vs; static char verif_varmem[4][8];\n"
+              'extern "C" void verif_dist_scene(unsigned n, int primary, double sep, unsigned a0, unsigned b0, unsigned a1, unsigned b1, unsigned a2, unsigned b2, unsigned nullmask) {\n'
+              "  unsigned A[3] = {a0, a1, a2}, B[3] = {b0, b1, b2};\n"              "  verif_dcp = (cola::DistributionConstraint *)malloc(sizeof(cola::DistributionConstraint)); verif_al = (cola::AlignmentConstraint *)malloc(4 * sizeof(cola::AlignmentConstraint));\n"
+              "  static vpsc::Constraint *own[4], *out[4]; verif_dc.cs._d = own; verif_dc.cs._n = 0; verif_dc.cs._cap = 4; verif_gcs._d = out; verif_gcs._n = 0; verif_gcs._cap = 4;\n"
+              "  for (unsigned k = 0; k < 4; ++k) verif_al[k].variable = ((nullmask >> k) & 1u) ? (vpsc::Variable *)0 : (vpsc::Variable *)(void *)verif_varmem[k];\n"
+              "  for (unsigned k = 0; k < 3; ++k) { verif_pair[k].alignment1 = &verif_al[A[k]]; verif_pair[k].alignment2 = &verif_al[B[k]]; verif_infop[k] = &verif_pair[k]; }\n"
+              "  verif_dc._primaryDim = (vpsc::Dim)primary; verif_dc.sep = sep; verif_dc._subConstraintInfo._d = verif_infop; verif_dc._subConstraintInfo._n = n; verif_dc._subConstraintInfo._cap = 3; }\n"
+              'extern "C" void w_dist_generate(int dim) { vpsc::Rectangles bbs; verif_dc.generateSeparationConstraints((vpsc::Dim)dim, verif_vs, verif_gcs, bbs); }\n'
+              'extern "C" unsigned long verif_ngcs(void) { return verif_gcs._n; }\nextern "C" unsigned long verif_ncs(void) { return verif_dc.cs._n; }\n'
+              'extern "C" int verif_var_of(void *v) { for (int k = 0; k < 4; ++k) if (v == (void *)verif_varmem[k]) return k; return -1; }\n'
+              'extern "C" int verif_g_left(unsigned k) { return verif_var_of((void *)verif_gcs._d[k]->left); }\nextern "C" int verif_g_right(unsigned k) { return verif_var_of((void *)verif_gcs._d[k]->right); }\n'
+              'extern "C" double verif_g_gap(unsigned k) { return verif_gcs._d[k]->gap; }\nextern "C" int verif_g_eq(unsigned k) { return verif_gcs._d[k]->equality ? 1 : 0; }\n'
+              'extern "C" int verif_g_own(unsigned k) { return (verif_gcs._d[k]->creator == (void *)&verif_dc && verif_dc.cs._d[k] == verif_gcs._d[k]) ? 1 : 0; }\n')
+    js.append(Job("distribution_every_pair_gets_its_equality", "B", spec, "h_dist", cxx=dg_cxx, defines=["JOB_dist_whole"], slices=[dg, cctor, cdecl], stub_variant="bounded_set", unwind=6,
+                  flags=["--sat-solver", "cadical", "--no-malloc-may-fail"], backend="sat:cadical", replay=replay_c07, timeout=600,
+                  bound="0 to 3 alignment pairs over 4 guidelines in every pattern (repeats, pairs joining earlier pieces), any guideline without a variable; loops unwound 6 times with unwinding assertions",
+                  domain="every such distribution, both dimensions, every separation (all doubles but NaN)",
+                  expect=[r'h_dist\.assertion']))
     return js
 
 
@@ -605,6 +644,8 @@ ASSUMPTIONS = [
     "live constraints' is instantiated at each access through the stub vector's element hook); priorities, alternatives' order and the restore of positions are not",
     "separation_ctor_then_generate runs the constructors' BODIES on an object whose members hold what the initialiser lists (checked textually: gap(g), equality(equality), "
     "CompoundConstraint(dim)) give them; CompoundConstraint's own constructor is not under contract",
+    "distribution_every_pair_gets_its_equality is a BOUNDED stand-in (0 to 3 alignment pairs over 4 guidelines, whole function): every pair, whatever came before it in the list, yields its own equality "
+    "(complements distribution_body/_shell, which need a self-contained loop body); std::set, should the function use one, is the array-backed stub with a default constructor (stubs/bounded_set)",
     "subconstraint_cursor_rewinds is a BOUNDED stand-in (up to 3 sub-constraints) for the cursor protocol makeFeasible relies on (markAllSubConstraintsAsInactive / subConstraintsRemaining / markCurrSubConstraintAsActive)",
     "virtual dispatch from setupVarsAndConstraints/setupExtraConstraints to the generate* members is not modelled (CBMC's C++ front end; the classes are checked one by one)",
     "variable ids are assumed non-negative (they are positions in the variable list: established for guide lines by the *_generateVariables jobs, for nodes by "
